@@ -165,6 +165,12 @@ theorem C01_needs_fresh_ids :
   ⟨[.callStart .A 10 1, .callWrite .A 0, .callStart .A 20 2, .reqDeliver .B 0, .handlerEnter .B 0,
     .handlerReturn .B 0 111 0, .respond .B 0, .resDeliver .A 0, .publish .A 0 1], by decide⟩
 
+/-- "…exactly the value and error that invocation produced": the response loop builds the caller's error from
+    the frame's `err` member VERBATIM (trimmed only to decide whether there is an error at all) and per
+    frame (checked against the regenerated skeleton). -/
+theorem C01_error_text_verbatim :
+    Skeleton.current.respErrIffTrimNonEmpty = true ∧ Skeleton.current.respErrFreshPerFrame = true := by decide
+
 end Panrpc.Sys
 
 #print axioms Panrpc.Sys.C01_ids_unique
@@ -177,3 +183,4 @@ end Panrpc.Sys
 #print axioms Panrpc.Sys.C01_can_complete_partial
 #print axioms Panrpc.Sys.C01_needs_recv_before_write
 #print axioms Panrpc.Sys.C01_needs_fresh_ids
+#print axioms Panrpc.Sys.C01_error_text_verbatim
